@@ -541,4 +541,279 @@ theorem getByScoreRange_refines {s : SL} (h : OInv s) (a b limit : Int) (exA exB
       · exact dec_lt_not_le _ _
       · exact dec_le_not_lt _ _
 
+/-! ### GetByRankRange with removal -/
+
+theorem rankDescend_rm {s : SL} (hinv : Inv s) (lo : Int) (hlo : 1 ≤ lo) :
+    ∀ i, i ≤ s.level → ∀ x, x < min lo.toNat s.all.length → i ≤ heightOf s.all x → ∀ upd0,
+      ∃ ups, (rankDescend s.all lo true i x (x : Int) upd0).2.2 = ups ++ upd0 ∧ ups.length = i ∧
+        (∀ j, j < i → IsUpd s.all (min lo.toNat s.all.length) j (ups.getD j 0) ((ups.getD j 0 : Nat) : Int)) ∧
+        x ≤ (rankDescend s.all lo true i x (x : Int) upd0).1 ∧
+        (rankDescend s.all lo true i x (x : Int) upd0).1 < min lo.toNat s.all.length ∧
+        (1 ≤ i → (rankDescend s.all lo true i x (x : Int) upd0).1 = min lo.toNat s.all.length - 1) ∧
+        (i = 0 → (rankDescend s.all lo true i x (x : Int) upd0).1 = x) ∧
+        (rankDescend s.all lo true i x (x : Int) upd0).2.1 = ((rankDescend s.all lo true i x (x : Int) upd0).1 : Int) := by
+  have hst := steers_rank s.all lo hlo
+  have hcl : min lo.toNat s.all.length ≤ s.all.length := Nat.min_le_right _ _
+  intro i
+  induction i with
+  | zero =>
+    intro _ x hx _ upd0
+    exact ⟨[], rfl, rfl, fun j hj => by omega, Nat.le_refl _, hx, fun h => by omega, fun _ => rfl, rfl⟩
+  | succ i ih =>
+    intro hil x hx hh upd0
+    simp only [rankDescend]
+    obtain ⟨w1, w2, w3, w4, w5⟩ := walk_spec hinv.spans (show i < s.level by omega) hst hcl s.all.length x hx (by omega) (by omega)
+    generalize hw : walk s.all i (fun t2 _ => decide (t2 < lo)) s.all.length x (x : Int) = w at w1 w2 w3 w4 w5
+    obtain ⟨x', r'⟩ := w
+    simp only at w1 w2 w3 w4 w5 ⊢
+    subst w1
+    simp only [if_true]
+    obtain ⟨ups, e1, e2, e3, e4, e5, e6, e7, e8⟩ := ih (by omega) x' w3 (by omega) (x' :: upd0)
+    refine ⟨ups ++ [x'], by rw [e1]; simp, by simp [e2], ?_, by omega, e5, ?_, fun h => by omega, e8⟩
+    · intro j hj
+      by_cases hji : j < i
+      · have : (ups ++ [x']).getD j 0 = ups.getD j 0 := by
+          simp only [List.getD_eq_getElem?_getD]
+          rw [List.getElem?_append_left (by omega)]
+        rw [this]; exact e3 j hji
+      · have hje : j = i := by omega
+        subst hje
+        have : (ups ++ [x']).getD j 0 = x' := by
+          simp only [List.getD_eq_getElem?_getD]
+          rw [List.getElem?_append_right (by omega)]
+          simp [e2]
+        rw [this]
+        exact ⟨rfl, w3, w4, w5⟩
+    · intro _
+      cases i with
+      | zero =>
+        rw [e7 rfl]
+        apply Decidable.byContradiction
+        intro hne
+        have := w5 (min lo.toNat s.all.length - 1) (by omega) (by omega)
+        have := hinv.heightPos (q := min lo.toNat s.all.length - 1) (by omega)
+        omega
+      | succ i' => exact e6 (by omega)
+
+theorem deleteNode_height_below (s : SL) (xp : Nat) (upd : List Nat) (q : Nat) (hq : q < xp) :
+    heightOf (deleteNode s xp upd).all q = heightOf s.all q := by
+  rw [deleteNode_eq]
+  simp only [heightOf, List.getElem?_eraseIdx, hq, if_true, mapSpans_get]
+  cases s.all[q]? <;> simp
+
+theorem oinv_deleteNode {s : SL} (h : OInv s) (xp : Nat) (hx1 : 1 ≤ xp) (hxl : xp < s.all.length) (upd : List Nat)
+    (hU : ∀ i, i < s.level → IsUpd s.all xp i (upd.getD i 0) ((upd.getD i 0 : Nat) : Int)) :
+    OInv (deleteNode s xp upd) ∧ nodes (deleteNode s xp upd) = (nodes s).eraseIdx (xp - 1) ∧
+    (deleteNode s xp upd).level ≤ s.level := by
+  obtain ⟨hinv', hnodes'⟩ := delete_inv h.inv xp hx1 hxl upd hU
+  have e1 : ∀ s' : SL, nodes s' = (s'.all.map (·.node)).tail := by intro s'; simp [nodes, List.map_tail]
+  obtain ⟨x', rfl⟩ : ∃ x', xp = x' + 1 := ⟨xp - 1, by omega⟩
+  have herase : nodes (deleteNode s (x' + 1) upd) = (nodes s).eraseIdx x' := by
+    rw [e1, hnodes', nodes_of_all h.inv, List.eraseIdx_cons_succ, List.tail_cons]
+  have hsub : ((nodes s).eraseIdx x').Sublist (nodes s) := List.eraseIdx_sublist _ _
+  refine ⟨⟨hinv', ?_, ?_⟩, by simpa using herase, ?_⟩
+  · rw [herase]; exact List.Pairwise.sublist hsub h.sorted
+  · rw [herase]; exact List.Nodup.sublist (List.Sublist.map _ hsub) h.keys
+  · rw [deleteNode_eq]
+    simp only
+    have hb : ∀ t ∈ ((mapSpans s.all (delF s (x' + 1) upd)).eraseIdx (x' + 1)).drop 1, t.spans.length ≤ s.level := by
+      intro t ht
+      have := hinv'.hts t
+      rw [deleteNode_eq] at this
+      simp only at this
+      have hle := (shrink_spec ((mapSpans s.all (delF s (x' + 1) upd)).eraseIdx (x' + 1)) s.level h.inv.lvl.1 ?_).2.1
+      · exact Nat.le_trans (this (by simpa [List.drop_one] using ht)).2 hle
+      · intro t' ht'
+        rw [List.mem_iff_getElem?] at ht'
+        obtain ⟨j, hj⟩ := ht'
+        rw [List.getElem?_drop, List.getElem?_eraseIdx] at hj
+        by_cases hlt : 1 + j < x' + 1
+        · rw [if_pos hlt, mapSpans_get] at hj
+          cases hg : s.all[1 + j]? with
+          | none => simp [hg] at hj
+          | some t0 =>
+            simp only [hg, Option.map_some, Option.some.injEq] at hj
+            subst hj
+            simp only [List.length_mapIdx]
+            have hjl : 1 + j < s.all.length := (List.getElem?_eq_some_iff.mp hg).1
+            have := h.inv.heightLe (q := 1 + j) (by omega) hjl
+            rwa [heightOf_eq hg] at this
+        · rw [if_neg hlt, mapSpans_get] at hj
+          cases hg : s.all[1 + j + 1]? with
+          | none => simp [hg] at hj
+          | some t0 =>
+            simp only [hg, Option.map_some, Option.some.injEq] at hj
+            subst hj
+            simp only [List.length_mapIdx]
+            have hjl : 1 + j + 1 < s.all.length := (List.getElem?_eq_some_iff.mp hg).1
+            have := h.inv.heightLe (q := 1 + j + 1) (by omega) hjl
+            rwa [heightOf_eq hg] at this
+    exact (shrink_spec _ s.level h.inv.lvl.1 hb).2.1
+
+/-- `update[]` computed once stays right while the towers at the cut are removed one after the other -/
+theorem collect_rm (upd : List Nat) (hi : Int) (c : Nat) (hc1 : 1 ≤ c) :
+    ∀ fuel (s : SL) (t : Int) acc, OInv s → s.all.length ≤ fuel + c →
+      (∀ i, i < s.level → IsUpd s.all c i (upd.getD i 0) ((upd.getD i 0 : Nat) : Int)) →
+      OInv (collect true upd hi fuel s c t acc).1 ∧
+      (collect true upd hi fuel s c t acc).2 = acc ++ ((nodes s).drop (c - 1)).take (hi - t + 1).toNat ∧
+      nodes (collect true upd hi fuel s c t acc).1 = (nodes s).take (c - 1) ++ (nodes s).drop (c - 1 + (hi - t + 1).toNat) := by
+  intro fuel
+  induction fuel with
+  | zero =>
+    intro s t acc h hf _
+    simp only [collect]
+    obtain ⟨hd, ts, eall, _⟩ := h.inv.hdr
+    have hlen : s.all.length = (nodes s).length + 1 := by simp [nodes, eall]
+    have d1 : (nodes s).drop (c - 1) = [] := List.drop_of_length_le (by omega)
+    have d2 : (nodes s).drop (c - 1 + (hi - t + 1).toNat) = [] := List.drop_of_length_le (by omega)
+    have d3 : (nodes s).take (c - 1) = nodes s := List.take_of_length_le (by omega)
+    rw [d1, d2, d3]; simp [h]
+  | succ fuel ih =>
+    intro s t acc h hf hU
+    obtain ⟨hd, ts, eall, _⟩ := h.inv.hdr
+    have hn : nodes s = ts.map (·.node) := by simp [nodes, eall]
+    have hlen : s.all.length = (nodes s).length + 1 := by rw [eall, hn]; simp
+    simp only [collect]
+    by_cases hc : c < s.all.length ∧ t ≤ hi
+    · rw [if_pos hc]
+      simp only [if_true]
+      obtain ⟨ho', hn', hlv'⟩ := oinv_deleteNode h c hc1 hc.1 upd hU
+      have hU' : ∀ i, i < (deleteNode s c upd).level → IsUpd (deleteNode s c upd).all c i (upd.getD i 0) ((upd.getD i 0 : Nat) : Int) := by
+        intro i hi'
+        obtain ⟨a1, a2, a3, a4⟩ := hU i (by omega)
+        refine ⟨a1, a2, ?_, ?_⟩
+        · rw [deleteNode_height_below s c upd _ a2]; exact a3
+        · intro q hq1 hq2
+          rw [deleteNode_height_below s c upd _ hq2]; exact a4 q hq1 hq2
+      have hlen' : (deleteNode s c upd).all.length = s.all.length - 1 := by
+        rw [deleteNode_eq]; simp only [List.length_eraseIdx, mapSpans_length, hc.1, if_true]
+      obtain ⟨r1, r2, r3⟩ := ih (deleteNode s c upd) (t + 1) (acc ++ [nodeOf s.all c]) ho' (by omega) hU'
+      refine ⟨r1, ?_, ?_⟩
+      · rw [r2, hn']
+        obtain ⟨c', rfl⟩ : ∃ c', c = c' + 1 := ⟨c - 1, by omega⟩
+        have hc'l : c' < (nodes s).length := by omega
+        have hnode : nodeOf s.all (c' + 1) = (nodes s)[c'] := by
+          rw [eall, nodeOf_succ, ← hn, List.getElem?_eq_getElem hc'l]; rfl
+        have e1 : c' + 1 - 1 = c' := by omega
+        obtain ⟨m, hm⟩ : ∃ m, (hi - t + 1).toNat = m + 1 := ⟨(hi - t + 1).toNat - 1, by omega⟩
+        have hm' : (hi - (t + 1) + 1).toNat = m := by omega
+        rw [hnode, e1, hm, hm', List.drop_eq_getElem_cons hc'l, List.take_succ_cons, List.append_assoc]
+        congr 2
+        rw [List.eraseIdx_eq_take_drop_succ, List.drop_append]
+        have : (List.take c' (nodes s)).length = c' := by simp [List.length_take]; omega
+        simp [this]
+      · rw [r3, hn']
+        obtain ⟨c', rfl⟩ : ∃ c', c = c' + 1 := ⟨c - 1, by omega⟩
+        have hc'l : c' < (nodes s).length := by omega
+        have e1 : c' + 1 - 1 = c' := by omega
+        obtain ⟨m, hm⟩ : ∃ m, (hi - t + 1).toNat = m + 1 := ⟨(hi - t + 1).toNat - 1, by omega⟩
+        have hm' : (hi - (t + 1) + 1).toNat = m := by omega
+        rw [e1, hm, hm', List.eraseIdx_eq_take_drop_succ]
+        have hl : (List.take c' (nodes s)).length = c' := by simp [List.length_take]; omega
+        rw [List.take_append, List.drop_append, hl]
+        simp only [Nat.sub_self, List.take_zero, List.append_nil]
+        have t1 : List.take c' (List.take c' (nodes s)) = List.take c' (nodes s) := by rw [List.take_take, Nat.min_self]
+        have t2 : List.drop (c' + m) (List.take c' (nodes s)) = [] := List.drop_of_length_le (by omega)
+        rw [t1, t2, List.nil_append, List.drop_drop]
+        congr 2
+        omega
+    · rw [if_neg hc]
+      refine ⟨h, ?_, ?_⟩
+      · by_cases hcl : c < s.all.length
+        · have : (hi - t + 1).toNat = 0 := by omega
+          rw [this]; simp
+        · have : (nodes s).drop (c - 1) = [] := List.drop_of_length_le (by omega)
+          rw [this]; simp
+      · by_cases hcl : c < s.all.length
+        · have : (hi - t + 1).toNat = 0 := by omega
+          rw [this]; simp
+        · have d2 : (nodes s).drop (c - 1 + (hi - t + 1).toNat) = [] := List.drop_of_length_le (by omega)
+          have d3 : (nodes s).take (c - 1) = nodes s := List.take_of_length_le (by omega)
+          rw [d2, d3]; simp
+
+/-- **`GetByRankRange(start, end, true)`** removes exactly the members whose ranks lie between the sanitized
+bounds, returns them in the order the list query does, and leaves a well-formed skiplist -/
+theorem getByRankRange_rm_refines {s : SL} (h : OInv s) (a b : Int)
+    (hpos : 1 ≤ (ZSetA.sanitize s.length.toNat a b).1 ∧ 1 ≤ (ZSetA.sanitize s.length.toNat a b).2) :
+    OInv (getByRankRange s a b true).1 ∧
+    nodes (getByRankRange s a b true).1 = (ZSetA.getByRankRange (nodes s) a b true).2 ∧
+    (getByRankRange s a b true).2 = (ZSetA.getByRankRange (nodes s) a b true).1 := by
+  obtain ⟨hd, ts, eall, _⟩ := h.inv.hdr
+  have hn : nodes s = ts.map (·.node) := by simp [nodes, eall]
+  have hlen : s.all.length = (nodes s).length + 1 := by rw [eall, hn]; simp
+  have hlenS : s.length.toNat = (nodes s).length := by rw [h.inv.len]; omega
+  unfold getByRankRange ZSetA.getByRankRange
+  rw [hlenS] at hpos ⊢
+  generalize hsan : ZSetA.sanitize (nodes s).length a b = ab at hpos
+  obtain ⟨a', b'⟩ := ab
+  simp only at hpos ⊢
+  generalize hlo : (if decide (a' > b') = true then (b', a') else (a', b')) = lohi
+  obtain ⟨lo, hi⟩ := lohi
+  have hlo1 : 1 ≤ lo := by
+    by_cases hr : a' > b'
+    · simp [hr] at hlo; omega
+    · simp [hr] at hlo; omega
+  simp only
+  obtain ⟨ups, e1, e2, e3, e4, e5, e6, e7, e8⟩ := rankDescend_rm h.inv lo hlo1 s.level (Nat.le_refl _) 0 (by omega)
+    (by rw [h.inv.height0]; exact h.inv.lvl.2) []
+  have e0 : ((0 : Nat) : Int) = 0 := rfl
+  rw [e0] at e1 e4 e5 e6 e8
+  generalize hrd : rankDescend s.all lo true s.level 0 0 [] = rd at e1 e4 e5 e6 e8
+  obtain ⟨x, t, upd⟩ := rd
+  simp only at e1 e4 e5 e6 e8 ⊢
+  have hx := e6 h.inv.lvl.1
+  subst e8
+  rw [List.append_nil] at e1
+  subst e1
+  subst hx
+  have hc1 : 1 ≤ min lo.toNat s.all.length := by omega
+  have ec : min lo.toNat s.all.length - 1 + 1 = min lo.toNat s.all.length := by omega
+  have et : ((min lo.toNat s.all.length - 1 : Nat) : Int) + 1 = ((min lo.toNat s.all.length : Nat) : Int) := by omega
+  rw [ec, et]
+  obtain ⟨r1, r2, r3⟩ := collect_rm upd hi (min lo.toNat s.all.length) hc1 s.all.length s ((min lo.toNat s.all.length : Nat) : Int) [] h (by omega)
+    (fun i hi' => e3 i hi')
+  generalize hcol : collect true upd hi s.all.length s (min lo.toNat s.all.length) ((min lo.toNat s.all.length : Nat) : Int) [] = col at r1 r2 r3
+  obtain ⟨s', ns'⟩ := col
+  simp only at r1 r2 r3 ⊢
+  simp only [List.nil_append] at r2
+  refine ⟨r1, ?_, ?_⟩
+  · rw [r3]
+    simp only [if_true]
+    by_cases hle : lo.toNat ≤ s.all.length
+    · have hm : min lo.toNat s.all.length = lo.toNat := Nat.min_eq_left hle
+      rw [hm]
+      have e3' : lo.toNat - 1 = (lo - 1).toNat := by omega
+      have e4' : ((lo.toNat : Nat) : Int) = lo := by omega
+      rw [e3', e4']
+      congr 1
+      -- dropping `k` or `min k (what is left)` behind position `lo-1` is the same
+      simp only [List.length_take, List.length_drop]
+      by_cases hk : (hi - lo + 1).toNat ≤ (nodes s).length - (lo - 1).toNat
+      · rw [Nat.min_eq_left hk]
+      · rw [Nat.min_eq_right (by omega)]
+        rw [List.drop_of_length_le (by omega), List.drop_of_length_le (by omega)]
+    · have hm : min lo.toNat s.all.length = s.all.length := Nat.min_eq_right (by omega)
+      rw [hm]
+      have d1 : (nodes s).drop (s.all.length - 1 + (hi - ((s.all.length : Nat) : Int) + 1).toNat) = [] := List.drop_of_length_le (by omega)
+      have d2 : (nodes s).take (s.all.length - 1) = nodes s := List.take_of_length_le (by omega)
+      have d3 : (nodes s).drop (lo - 1).toNat = [] := List.drop_of_length_le (by omega)
+      have d4 : (nodes s).take (lo - 1).toNat = nodes s := List.take_of_length_le (by omega)
+      rw [d1, d2, d3, d4]
+      simp <;> omega
+  · rw [r2]
+    have hsel : ((nodes s).drop (min lo.toNat s.all.length - 1)).take (hi - ((min lo.toNat s.all.length : Nat) : Int) + 1).toNat =
+        ((nodes s).drop (lo - 1).toNat).take (hi - lo + 1).toNat := by
+      by_cases hle : lo.toNat ≤ s.all.length
+      · have : min lo.toNat s.all.length = lo.toNat := Nat.min_eq_left hle
+        rw [this]
+        have e3' : lo.toNat - 1 = (lo - 1).toNat := by omega
+        have e4' : ((lo.toNat : Nat) : Int) = lo := by omega
+        rw [e3', e4']
+      · have : min lo.toNat s.all.length = s.all.length := Nat.min_eq_right (by omega)
+        rw [this]
+        have d1 : (nodes s).drop (s.all.length - 1) = [] := List.drop_of_length_le (by omega)
+        have d2 : (nodes s).drop (lo - 1).toNat = [] := List.drop_of_length_le (by omega)
+        rw [d1, d2]; simp
+    rw [hsel]
+
 end NutsProofs.SkipL
